@@ -38,10 +38,8 @@ def drive(V, cfg, order="sender-first", tag=""):
 
         bounded.__name__ = "push_scheduled_ts"
         w.push_scheduled_ts = bounded
-        w.q_ts_end_prev.append(asyncsym.zero(V))
-        w.q_tick.extend([True] * 10)
-    rec.tasks.append((snd, "push_scheduled_ts", ()))
-    rec.tasks.append((rcv, "push_scheduled_ts", ()))
+    # initial state, tick tokens and the first scheduling task of both nodes come from the real _reset/_start
+    asyncsym.real_reset_start(V, [snd, rcv], keep_tokens=True)
     orders = {"sender-first": [snd, c, rcv], "receiver-first": [rcv, c, snd], "connection-first": [c, rcv, snd], "fifo": None}
     rec.drain(orders[order], max_tasks=60 * (M + K))
     return snd, rcv, c
